@@ -1,7 +1,7 @@
 /* C13 harness: sc_stats_compute of the real libsc on the simulated MPI.
    stdin per run:  header  <P> <seed> <adversary> <nvars> <rounds>
      then for each round, each rank, each variable one line:  <mode> <n> <v1> ... <vn>
-       mode 0: sc_stats_init + n x sc_stats_accumulate;  mode 1: sc_stats_set1 (v1);  mode 2: leave the variable as it is (clean)
+       mode 0: sc_stats_init + n x sc_stats_accumulate;  mode 1: sc_stats_set1 (v1);  mode 2: leave the variable as it is (clean);  mode 3: sc_stats_reset + n x sc_stats_accumulate
      values are decimal doubles.
    stdout: OUT <round> <rank> <var> dirty count sum sumsq min max min_at max_at average variance standev variance_mean standev_mean
            (doubles as hex bit patterns) */
@@ -33,6 +33,12 @@ static void rank_main (int rank, int size, void *varg)
       item_t *it = &a->items[((size_t) rd * a->P + rank) * a->nvars + i];
       if (it->mode == 0) { sc_stats_init (&st[i], "v"); for (int k = 0; k < it->n; ++k) sc_stats_accumulate (&st[i], it->v[k]); }
       else if (it->mode == 1) sc_stats_set1 (&st[i], it->v[0], "v");
+      else if (it->mode == 3) {
+        /* refill through reset: "Variables are zeroed. They can be set again by set1 or accumulate" - like mode 0
+           for a variable that was initialised in an earlier round (the first round initialises instead) */
+        if (rd == 0) sc_stats_init (&st[i], "v"); else sc_stats_reset (&st[i], 0);
+        for (int k = 0; k < it->n; ++k) sc_stats_accumulate (&st[i], it->v[k]);
+      }
     }
     sc_stats_compute (sc_MPI_COMM_WORLD, a->nvars, st);
     for (int i = 0; i < a->nvars; ++i) {
